@@ -45,8 +45,8 @@ def run(chk):
                 "replayed on an independent interpreter with the recorded outcomes and compared with the simulator's final state. "
                 "distinct non-trivial = distinct accepted programs whose QASM has >= 4 operation lines")
     chk.assumptions = ["angles in generated programs print exactly in six decimals; tolerance 1e-6 + 2e-6 per rotation otherwise",
-                       "object qubit fields are exercised once the class fragment is modelled (C08); the file-vs-stdout clause is "
-                       "checked through the CLI harness (see C17's run)"]
+                       "object qubit fields reach the simulator through the same calls (C06 renders gates through fields); the "
+                       "file-vs-stdout clause runs the real command-line front end with the same forced draws"]
     import translate_tables
     chk.prove(generated=[translate_tables.keywords, translate_tables.binding_table])
     rng = chk.rng
@@ -79,6 +79,32 @@ def run(chk):
         why = judge(a)
         if why and bad is None:
             bad = (src, ds, why, a)
+    # the file written next to the source equals what --emit-qasm prints, and both equal the evaluator's text for the same draws
+    import os, shutil, tempfile
+    import buildlib
+    import c17
+    exe = buildlib.build_cli()
+    work = tempfile.mkdtemp(prefix="c05_", dir=buildlib.BUILD)
+    file_checked = 0
+    try:
+        idx = [i for i, a in enumerate(impl) if a.startswith("ok ")][: (120 if chk.thorough else 25)]
+        for i in idx:
+            src, ds = progs[i]
+            rc, out, err, qfile = c17.run_cli(exe, work, src, ["--emit-qasm"], draws=evallib.draws_arg(ds) if ds else None)
+            want = evallib.split_result(impl[i]).get("qasm_text", "")
+            file_checked += 1
+            why = None
+            if rc != 0:
+                why = "the command-line run exits with %d where the in-process run succeeded: %s" % (rc, err[-200:])
+            elif qfile != want:
+                why = "the .qasm file written next to the source differs from the evaluator's OpenQASM text"
+            elif not out.endswith(qfile):
+                why = "--emit-qasm prints something else than the .qasm file written next to the source"
+            if why and bad is None:
+                bad = (src, ds, why, impl[i])
+    finally:
+        shutil.rmtree(work, ignore_errors=True)
+    chk.extra["file_vs_stdout_runs"] = file_checked
     chk.extra["verdicts"] = verdicts
     chk.extra["feature_histogram"] = feats
     chk.extra["qasm_operation_lines"] = oplines
